@@ -331,8 +331,12 @@ func resp3To2(val3 respValue) (value respValue) {
 	switch v := val3.data.(type) {
 	case respSimpleString, respErrorString, respInt, respBulkString:
 		value.data = v
-	case respDouble, respBigNumber, respVerbatimString:
+	case respDouble, respBigNumber:
 		value.data = respSimpleString(fmt.Sprintf("%s", v))
+	case respVerbatimString:
+		// RESP2 carries the text itself as a bulk string: no format prefix, and
+		// binary safe (INFO and CLIENT LIST texts contain line breaks)
+		value.data = respBulkString(v.text)
 	case respBool:
 		// RESP2 has no boolean: Redis sends the integers 1 and 0
 		if v {
